@@ -324,7 +324,10 @@ def model_compare(c, root, before, changed, rc, defs_dir):
         d = os.path.dirname(d)
         dirs.add(d)
     if defs_dir:
-        dirs.add(defs_dir)
+        d = defs_dir                 # with its ancestors: the model walks a path component by component, like the OS
+        while d != '/':
+            dirs.add(d)
+            d = os.path.dirname(d)
         for fn in os.listdir(defs_dir):
             files[os.path.join(defs_dir, fn)] = open(os.path.join(defs_dir, fn), 'rb').read()
     H = common.hexs
